@@ -19,6 +19,7 @@ fn last_letter(b: &[u8; 6]) -> u8 {
 
 //@ id: track_bytes
 //@ prop: C14
+//@ tier: thorough
 //@ functions: insim_core/src/track.rs <Track as BinRead>::read_options; insim_core/src/track.rs <Track as BinWrite>::write_options; insim_core/src/track.rs Track::is_reverse; insim_core/src/track.rs Track::is_open; insim_core/src/track.rs Track::distance_mile; insim_core/src/track.rs Track::distance_km
 //@ statement: for ALL 2^48 values b of the 6 wire bytes: if b decodes to a configuration t then t re-encodes to exactly b (so no other 6-byte value decodes to t), is_reverse(t) <=> the last letter of b is R or Y, is_open(t) <=> the last letter is X or Y, and an open configuration has no lap distance
 //@ covers: 2
@@ -52,8 +53,8 @@ fn c14_track_bytes() {
 
 //@ id: track_code
 //@ prop: C14
-//@ functions: insim_core/src/track.rs Track::code; insim_core/src/track.rs <Track as BinRead>::read_options
-//@ statement: for ALL 2^48 values b of the 6 wire bytes: if b decodes to t then t.code() NUL-padded to 6 bytes equals b (the wire form is the short code)
+//@ functions: insim_core/src/track.rs Track::code; insim_core/src/track.rs <Track as BinRead>::read_options; insim_core/src/track.rs Track::is_reverse; insim_core/src/track.rs Track::is_open; insim_core/src/track.rs Track::distance_mile
+//@ statement: for ALL 2^48 values b of the 6 wire bytes: if b decodes to t then t.code() NUL-padded to 6 bytes equals b (the wire form is the short code, hence no other 6-byte value decodes to t); t is reversed exactly when the code ends in R or Y, open exactly when it ends in X or Y, and an open configuration has no lap distance
 //@ covers: 1
 //@ timeout: 1500
 #[kani::proof]
@@ -70,6 +71,12 @@ fn c14_track_code() {
             let expect = if i < cb.len() { cb[i] } else { 0 };
             assert!(b[i] == expect, "wire form is the short code NUL-padded to 6 bytes");
             i += 1;
+        }
+        let last = cb[cb.len() - 1];
+        assert!(t.is_reverse() == (last == b'R' || last == b'Y'), "reversed <=> code ends in R or Y");
+        assert!(t.is_open() == (last == b'X' || last == b'Y'), "open <=> code ends in X or Y");
+        if t.is_open() {
+            assert!(t.distance_mile().is_none() && t.distance_km().is_none(), "open configurations have no lap distance");
         }
         core::mem::forget(code);
     }
